@@ -311,7 +311,8 @@ def regress_worker(job):
     with open(path) as fh:
         d = json.load(fh)
     try:
-        check_program(shard, d["source"], d["argv"], d.get("choices", [[9, 9, 9, 9, 17, 25, 33]]), nctx=7)
+        choices = [bytes.fromhex(c) if isinstance(c, str) else c for c in d.get("choices", [[9, 9, 9, 9, 17, 25, 33]])]
+        check_program(shard, d["source"], d["argv"], choices, nctx=7)
     except Failure as f:
         if f.sig in known:
             shard.known_hits[f.sig] += 1
